@@ -8,6 +8,7 @@ through parentheses). `C05_*_value`: a chain evaluates all members in order and 
 tuple is the flat tuple of its elements' values, an absent element / `()` is the empty value.
 Proofs: Proofs/ParseSeqExpr, Proofs/ParseSeq (tree), Proofs/EvalOrder (values).
 -/
+import EvalexprVerif.Proofs.LexExt
 import EvalexprVerif.Proofs.ParseSeq
 import EvalexprVerif.Proofs.EvalOrder
 import EvalexprVerif.Proofs.AgreeOperator
@@ -19,6 +20,14 @@ open Evalexpr Evalexpr.Spec
 /-- **C05 (tree)** -/
 theorem C05_tree (l : Level) (h : levelWf l = true) :
     tokensToOperatorTree (renderLevel l) = .ok (levelTree l) := Evalexpr.Spec.C05_tree l h
+
+/-- … in every literal spelling with the weakest separation the lexer needs (extended round trip) -/
+theorem C05_string_ext (l : Level) (h : levelWf l = true) (ps : List (Gap × PTok)) (g : Gap)
+    (hts : ps.map (·.2.tok) = renderLevel l) (hp : ∀ p ∈ ps, p.2.PrintableX) (ha : AdmissibleX ps g) :
+    buildOperatorTree (renderFrom ps g) = .ok (levelTree l) := by
+  unfold buildOperatorTree
+  rw [Evalexpr.Spec.C07_roundtrip_ext ps g hp ha, hts]
+  exact C05_tree l h
 
 /-- **C05 (string level)**: any spelling of the level's tokens with any admissible gaps -/
 theorem C05_string (l : Level) (h : levelWf l = true) (ps : List (Gap × PTok)) (g : Gap)
